@@ -1,14 +1,18 @@
 package streampool
 
 import (
+	"fmt"
 	"strings"
 
 	"verifharness/internal/corr"
 )
 
 func newCase(r *corr.Run, workers, qsize, ntags int) *caseRun {
+	// StreamConfig.SendQueueSize must not influence the per-stream bound (the default is the constant 100)
+	cfgSendQueue := []int{0, 10, 3}[r.Intn(3)]
 	c := &caseRun{r: r, workers: workers, qsize: qsize, ntags: ntags, sh: map[int]*shadow{}, sent: map[int]*sentRec{}, nextMsg: 10, nextTid: 1}
-	c.w = newWorld(workers, qsize, ntags)
+	c.w = newWorld(workers, qsize, ntags, cfgSendQueue)
+	r.Count(fmt.Sprintf("cfg.sendqueue.%d", cfgSendQueue))
 	c.step(op{kind: "new", peer: workers, capRaw: qsize, sid: ntags})
 	return c
 }
@@ -43,6 +47,17 @@ func (c *caseRun) drain() bool {
 		c.w.mu.Unlock()
 		if need {
 			if !c.step(op{kind: "gate", sid: sid, gated: false}) {
+				return false
+			}
+		}
+	}
+	for sid := 1; sid <= len(c.w.fakes); sid++ {
+		c.w.mu.Lock()
+		f := c.w.fakes[sid-1]
+		need := f.closeBlocks && !f.hooked
+		c.w.mu.Unlock()
+		if need {
+			if !c.step(op{kind: "cblock", sid: sid, gated: false}) {
 				return false
 			}
 		}
@@ -107,7 +122,7 @@ func (c *caseRun) end(sample bool) {
 // blocked stream is released write by write.
 func scriptFill(r *corr.Run, cp int, incoming bool, viaById bool) {
 	c := newCase(r, 1, 2, 3)
-	c.step(op{kind: "add", peer: 0, capRaw: cp, gated: true, tags: []int{0}, incoming: incoming})
+	c.step(op{kind: "add", peer: 0, capRaw: cp, gated: true, tags: []int{0}, incoming: incoming, negCap: cp == 0 && viaById})
 	c.step(op{kind: "add", peer: 1, capRaw: cp, gated: false, tags: []int{0, 1}})
 	n := effCap(cp) + 3
 	for i := 0; i < n; i++ {
@@ -122,6 +137,47 @@ func scriptFill(r *corr.Run, cp int, incoming bool, viaById bool) {
 		c.step(op{kind: "bcast", msg: c.msgId(), tags: []int{0}})
 		c.step(op{kind: "bcast", msg: c.msgId(), tags: []int{0}})
 	}
+	c.end(false)
+}
+
+// scriptCloseBlocked: the remote of a failing / cancelled / EOF'd stream hangs in Close(). The pool
+// calls Close outside its mutex, so every call for OTHER peers (and even for the stuck one) returns.
+func scriptCloseBlocked(r *corr.Run, how int) {
+	c := newCase(r, 1, 2, 3)
+	c.step(op{kind: "add", peer: 0, capRaw: 2, gated: true, tags: []int{0, 1}, failAt: map[bool]int{true: 1, false: 0}[how == 0]})
+	c.step(op{kind: "cblock", sid: 1, gated: true})
+	c.step(op{kind: "add", peer: 1, capRaw: 2, gated: false, tags: []int{0, 2}, incoming: true})
+	c.step(op{kind: "add", peer: 0, capRaw: 1, gated: true, tags: []int{1}})
+	c.step(op{kind: "bcast", msg: c.msgId(), tags: []int{0}})
+	switch how {
+	case 0: // write error → the writer goroutine is stuck in Close
+		c.step(op{kind: "rel", sid: 1})
+	case 1: // EOF → the reader goroutine is stuck in Close
+		c.step(op{kind: "rclose", sid: 1})
+	case 2: // handler error
+		c.step(op{kind: "rclose", sid: 1, viaErr: true})
+	case 3: // cancelled context, then the pending write returns
+		c.step(op{kind: "cancel", sid: 1})
+		c.step(op{kind: "rel", sid: 1})
+	}
+	// everything keeps working while Close() of stream 1 hangs
+	c.step(op{kind: "bcast", msg: c.msgId(), tags: []int{0, 1}})
+	c.step(op{kind: "byid", msg: c.msgId(), peers: []int{1}})
+	c.step(op{kind: "byid", msg: c.msgId(), peers: []int{0, 1}})
+	c.step(op{kind: "tag+", sid: 2, tags: []int{1}})
+	c.step(op{kind: "tag-", sid: 2, tags: []int{2}})
+	c.step(op{kind: "tag+", sid: 1, tags: []int{2}})
+	c.step(op{kind: "tagid-", sid: 1, tags: []int{0}})
+	c.step(op{kind: "streams", tags: []int{0, 1, 2}})
+	c.nextTid++
+	c.step(op{kind: "send", tid: c.nextTid, msg: c.msgId(), peers: []int{1, 0}})
+	c.step(op{kind: "drel", tid: c.nextTid})
+	c.step(op{kind: "add", peer: 2, capRaw: 1, gated: false, tags: []int{0}})
+	c.step(op{kind: "bcast", msg: c.msgId(), tags: []int{0}})
+	c.step(op{kind: "rclose", sid: 2})
+	c.step(op{kind: "bcast", msg: c.msgId(), tags: []int{0, 1, 2}})
+	c.step(op{kind: "cblock", sid: 1, gated: false}) // Close returns at last: now the stream is removed
+	c.step(op{kind: "byid", msg: c.msgId(), peers: []int{0}})
 	c.end(false)
 }
 
@@ -284,14 +340,14 @@ func (c *caseRun) genOp(g *genState) op {
 	w.mu.Unlock()
 	anySid := func() int { return 1 + r.Intn(nf) }
 	for {
-		x := r.Intn(112)
+		x := r.Intn(114)
 		switch {
 		case x < 10:
 			if nf >= g.maxFakes {
 				continue
 			}
 			cp := c.randCap()
-			o := op{kind: "add", peer: r.Intn(3), capRaw: cp, gated: r.Chance(60), incoming: r.Chance(40)}
+			o := op{kind: "add", peer: r.Intn(3), capRaw: cp, gated: r.Chance(60), incoming: r.Chance(40), negCap: cp == 0 && r.Chance(50)}
 			// a tag listed twice makes Broadcast(tag) write twice in a row to the stream; that is
 			// deterministic only when both writes fit whatever the writer goroutine is doing
 			o.tags = c.randTags(false)
@@ -365,7 +421,10 @@ func (c *caseRun) genOp(g *genState) op {
 				continue
 			}
 			return op{kind: "cancel", sid: live[r.Intn(len(live))]}
-		case x < 106:
+		case x < 108:
+			if len(live) > 0 && r.Chance(75) {
+				return op{kind: "cblock", sid: live[r.Intn(len(live))], gated: r.Chance(80)}
+			}
 			return op{kind: "addnopeer"}
 		default:
 			// burst: fill a gated stream beyond its queue size
@@ -375,7 +434,7 @@ func (c *caseRun) genOp(g *genState) op {
 			sid := gatedLive[r.Intn(len(gatedLive))]
 			f := w.fakes[sid-1]
 			cp := effCap(f.capRaw)
-			if cp > 12 && !r.Chance(15) {
+			if cp > 12 && !r.Chance(40) {
 				continue
 			}
 			sh := c.sh[sid]
@@ -417,7 +476,12 @@ func Run(r *corr.Run) {
 		func() { scriptFill(r, 3, false, true) },
 		func() { scriptFill(r, 4, true, true) },
 		func() { scriptFill(r, 7, false, true) },
-		func() { scriptFill(r, 0, true, false) }, // default queue size
+		func() { scriptFill(r, 0, true, false) }, // default queue size (queueSize = 0)
+		func() { scriptFill(r, 0, false, true) }, // default queue size (queueSize < 0)
+		func() { scriptCloseBlocked(r, 0) },
+		func() { scriptCloseBlocked(r, 1) },
+		func() { scriptCloseBlocked(r, 2) },
+		func() { scriptCloseBlocked(r, 3) },
 		func() { scriptClose(r, 0) },
 		func() { scriptClose(r, 1) },
 		func() { scriptClose(r, 2) },
